@@ -12,6 +12,8 @@
 package c09
 
 import (
+	"errors"
+	"sync/atomic"
 	"bytes"
 	"context"
 	"encoding/json"
@@ -379,7 +381,30 @@ func runOne(t *testing.T, e *env, tr sink, sid int, sched []drv.Step, rep int) {
 	}
 }
 
+// faultyBN is the beacon node the verifier talks to: while down, the look-ups a signature verification needs fail.
+type faultyBN struct {
+	beaconmock.Mock
+	down *atomic.Bool
+}
+
+var errBNDown = errors.New("beacon node unavailable (scripted)")
+
+func (f faultyBN) Domain(ctx context.Context, dt eth2p0.DomainType, ep eth2p0.Epoch) (eth2p0.Domain, error) {
+	if f.down.Load() {
+		return eth2p0.Domain{}, errBNDown
+	}
+	return f.Mock.Domain(ctx, dt, ep)
+}
+
+func (f faultyBN) GenesisDomain(ctx context.Context, dt eth2p0.DomainType) (eth2p0.Domain, error) {
+	if f.down.Load() {
+		return eth2p0.Domain{}, errBNDown
+	}
+	return f.Mock.GenesisDomain(ctx, dt)
+}
+
 type sharedAgg struct {
+	down  atomic.Bool
 	agg   *sigagg.Aggregator
 	T     int
 	calls *[]subCall
@@ -502,7 +527,7 @@ func runCall(t *testing.T, e *env, tr sink, sid int, c drv.Step, rep int, sh *sh
 	}
 
 	if sh.agg == nil {
-		agg, err := sigagg.New(T, sigagg.NewVerifier(e.bmock))
+		agg, err := sigagg.New(T, sigagg.NewVerifier(faultyBN{Mock: e.bmock, down: &sh.down}))
 		if err != nil {
 			fatalf("sigagg.New: %v", err)
 		}
@@ -518,7 +543,13 @@ func runCall(t *testing.T, e *env, tr sink, sid int, c drv.Step, rep int, sh *sh
 	}
 	agg := sh.agg
 	*sh.calls = nil
-	tr.Emit(drv.Step{"ev": "Call", "typ": typ, "ver": ver, "bucket": bucket, "domain": domain, "esrc": esrc, "vals": c["vals"]})
+	bn := "up"
+	if drv.Str(c["bn"]) == "down" {
+		bn = "down"
+	}
+	sh.down.Store(bn == "down")
+	defer sh.down.Store(false)
+	tr.Emit(drv.Step{"ev": "Call", "typ": typ, "ver": ver, "bucket": bucket, "domain": domain, "esrc": esrc, "vals": c["vals"], "bn": bn})
 
 	duty := core.Duty{Slot: own*e.slotsPerEpoch + 3, Type: dutyType(typ)}
 	var (
